@@ -1,0 +1,20 @@
+//go:build verif
+// +build verif
+
+package core
+
+import "time"
+
+// This file only exists for builds with the "verif" tag: the purge index uploader ticks every
+// 5 minutes and there is no exported option to shorten that, so the "upload a chunk while the
+// metadata scan is still running" path cannot be reached by an external verification harness.
+
+// VerifPurgeUploaderInterval sets the interval at which the index uploader looks for new keys
+// while the metadata scan is running (default: 5 minutes).
+func VerifPurgeUploaderInterval(d time.Duration) PurgeOption {
+	return func(o *purgeOptions) {
+		if d > 0 {
+			o.uploaderInterval = d
+		}
+	}
+}
